@@ -690,41 +690,59 @@ func checkGRPCHandler(r *Run, p *Prog) {
 		return
 	}
 	herr := errVarOfCall(fn, exec)
-	c := p.CFG(fn)
-	// returns reachable after Exec: nil only behind (err == nil || Is(err, EOF)); otherwise Encode(ctx, err, ...)
-	nilOK := c.TrueEdgesOfDisjunctionOf(func(a ast.Expr) bool {
-		if o, trueMeansNil, ok := nilCompare(fn, a); ok && o == herr && trueMeansNil {
-			return true
+	_ = p.CFG(fn)
+	// truth table (E17) over "the handler error is nil" and "it is EOF": for a non-nil,
+	// non-EOF error the function never returns nil
+	classify := func(ev *ttEval, st *ttState, f *FuncNode, e ast.Expr) (string, bool, bool) {
+		if f != fn {
+			return "", false, false
 		}
-		if call, ok := ast.Unparen(a).(*ast.CallExpr); ok && len(call.Args) == 2 {
-			if f := CalleeFunc(fn, call); f != nil && f.Name() == "Is" && objOf(fn, call.Args[0]) == herr {
-				if s, ok := ast.Unparen(call.Args[1]).(*ast.SelectorExpr); ok && s.Sel.Name == "EOF" {
-					return true
+		if o, trueMeansNil, ok := nilCompare(f, e); ok && o == herr {
+			return "nil", !trueMeansNil, true
+		}
+		if call, ok := ast.Unparen(e).(*ast.CallExpr); ok && len(call.Args) == 2 {
+			if g := CalleeFunc(f, call); g != nil && g.Name() == "Is" && objOf(f, call.Args[0]) == herr {
+				if sl, ok := ast.Unparen(call.Args[1]).(*ast.SelectorExpr); ok && sl.Sel.Name == "EOF" {
+					return "eof", false, true
 				}
 			}
 		}
-		return false
-	})
-	ep, _ := c.Locate(exec)
-	_, vis := c.ReachAvoiding([]Point{ep}, nilOK, nil)
-	ok := herr != nil && len(nilOK) > 0
-	detail := ""
-	for _, ex := range c.Exits() {
-		if !vis[ex.P] || ex.Return == nil || len(ex.Return.Results) != 1 {
-			continue
+		return "", false, false
+	}
+	outcome := func(f *FuncNode, ret *ast.ReturnStmt, results []ttVal) string {
+		if ret == nil || len(ret.Results) != 1 {
+			return "other"
 		}
-		res := ast.Unparen(ex.Return.Results[0])
+		res := ast.Unparen(ret.Results[0])
+		if isNilIdent(f, res) {
+			return "nil"
+		}
 		if call, isCall := res.(*ast.CallExpr); isCall {
-			if f := CalleeFunc(fn, call); f != nil && f.Name() == "Encode" && len(call.Args) >= 2 && objOf(fn, call.Args[1]) == herr {
-				continue
+			if g := CalleeFunc(f, call); g != nil && g.Name() == "Encode" && len(call.Args) >= 2 && objOf(f, call.Args[1]) == herr {
+				return "encoded"
 			}
 		}
-		// a header send error may be returned as is
-		if o := objOf(fn, res); o != nil && o != herr && isErrorType(o.Type()) {
-			continue
+		if objOf(f, res) == herr {
+			return "raw"
 		}
-		ok = false
-		detail = "returns " + types.ExprString(res) + " for a non-nil, non-EOF handler error"
+		return "other"
+	}
+	ok := herr != nil
+	detail := ""
+	if ok {
+		table, bad := ttTable(p, fn, []string{"nil", "eof"}, classify, outcome, false)
+		if bad != "" {
+			r.Undecide("C14.R2: grpc Handler could not be evaluated: %s", bad)
+			return
+		}
+		if table[0]["nil"] || table[0]["raw"] {
+			ok = false
+			detail = "returns nil (or the unencoded error) for a non-nil, non-EOF handler error"
+		}
+		if !table[0]["encoded"] {
+			ok = false
+			detail = "never returns the encoded handler error"
+		}
 	}
 	r.Ob("C14.R2.terminal", "grpc Handler returns the encoded handler error unless it is nil or EOF", p.Position(fn.Pos()), ok, detail)
 }
